@@ -666,7 +666,7 @@ func (c1 float64Const) float64() float64 {
 	}
 	return float64(c1)
 }
-func (c1 float64Const) complex128() complex128 { return complex(float64(c1), 0) }
+func (c1 float64Const) complex128() complex128 { return complex(c1.float64(), 0) }
 
 func (c1 float64Const) unaryOp(op ast.OperatorType, typ reflect.Type) (constant, error) {
 	switch op {
